@@ -44,10 +44,42 @@ def sh(cmd, cwd=None, env=None, timeout=None, stdout=None):
                           stderr=subprocess.STDOUT, text=True)
 
 
-def base_env():
+REAL_KANI = os.environ.get("VERIF_REAL_KANI", "/root/.kani/kani-0.68.0")
+
+
+def kani_overlay():
+    """KANI_HOME overlay: Kani's own bundle with `cbmc` replaced by lib/cbmc_wrap.py (per-loop bounds, body cuts)."""
+    home = os.path.join(SCRATCH, "kani-home")
+    k = os.path.join(home, os.path.basename(REAL_KANI))
+    wrapper = os.path.join(k, "bin", "cbmc")
+    want = "#!/bin/bash\nexec python3 %s \"$@\"\n" % os.path.join(VERIF, "lib", "cbmc_wrap.py")
+    if not (os.path.exists(wrapper) and open(wrapper).read() == want):
+        shutil.rmtree(home, ignore_errors=True)
+        os.makedirs(os.path.join(k, "bin"))
+        for n in os.listdir(REAL_KANI):
+            if n != "bin":
+                os.symlink(os.path.join(REAL_KANI, n), os.path.join(k, n))
+        for n in os.listdir(os.path.join(REAL_KANI, "bin")):
+            if n != "cbmc":
+                os.symlink(os.path.join(REAL_KANI, "bin", n), os.path.join(k, "bin", n))
+        open(wrapper, "w").write(want)
+        os.chmod(wrapper, 0o755)
+    return home
+
+
+def base_env(outdir=None):
     env = dict(os.environ)
     env["CARGO_NET_OFFLINE"] = "true"
     env.pop("RUSTFLAGS", None)
+    env["KANI_HOME"] = kani_overlay()
+    env["VERIF_REAL_KANI_BIN"] = os.path.join(REAL_KANI, "bin")
+    cfg = os.path.join(SCRATCH, "wrap-cfg.json")
+    wc = dict(registry.WRAP_CFG)
+    wc["per_harness"] = {h: {"unwindset": spec["loops"]} for h, spec in registry.HARNESSES.items() if spec.get("loops")}
+    json.dump(wc, open(cfg, "w"))
+    env["VERIF_WRAP_CFG"] = cfg
+    if outdir:
+        env["VERIF_WRAP_LOG"] = os.path.join(outdir, "wrap.log")
     return env
 
 
@@ -77,7 +109,7 @@ def prepare_work(work, sites):
         os.makedirs(moddir, exist_ok=True)
         text = open(os.path.join(VERIF, "harness", site["file"])).read()
         for inc in site.get("include", []):
-            text = open(os.path.join(VERIF, "harness", inc)).read() + "\n" + text
+            text = text + "\n" + open(os.path.join(VERIF, "harness", inc)).read()
         open(os.path.join(moddir, modname + ".rs"), "w").write(text)
         with open(parent, "a") as f:
             f.write("\n#[cfg(kani)]\nmod %s;\n" % modname)
@@ -87,11 +119,12 @@ def kani_cmd(build, target_dir, harness_ids, jobs, timeout_s, json_path, extra=N
     cmd = ["cargo", "kani", "--target-dir", target_dir, "-Z", "unstable-options", "-Z", "stubbing",
            "--harness-timeout", "%ds" % timeout_s, "--output-format", "terse", "-j", str(jobs),
            "--export-json", json_path, "--exact"]
-    cmd += registry.BUILDS[build]["cargo_args"]
+    cmd += registry.BUILDS[build]["cargo_args"] + registry.BUILDS[build].get("kani_args", [])
     for h in harness_ids:
         cmd += ["--harness", h]
     if extra:
         cmd += extra
+    cmd += ["--cbmc-args"] + registry.CBMC_ARGS
     return cmd
 
 
@@ -109,7 +142,7 @@ def run_kani(work, build, harnesses, jobs, tier, outdir):
     t0 = time.time()
     with open(logp, "w") as lf:
         try:
-            p = subprocess.run(cmd, cwd=work, env=base_env(), stdout=lf, stderr=subprocess.STDOUT,
+            p = subprocess.run(cmd, cwd=work, env=base_env(outdir), stdout=lf, stderr=subprocess.STDOUT,
                                preexec_fn=limit_mem(registry.MEM_GB), timeout=tmax * 3 + 900)
             rc = p.returncode
         except subprocess.TimeoutExpired:
@@ -178,7 +211,8 @@ def replay(work, build, h, prop, outdir):
     cmd = ["cargo", "kani", "--target-dir", target_dir, "-Z", "unstable-options", "-Z", "stubbing",
            "-Z", "concrete-playback", "--concrete-playback=print", "--exact", "--harness", hid,
            "--harness-timeout", "%ds" % (registry.HARNESSES[h].get("timeout", 600) * 2)]
-    cmd += registry.BUILDS[build]["cargo_args"]
+    cmd += registry.BUILDS[build]["cargo_args"] + registry.BUILDS[build].get("kani_args", [])
+    cmd += ["--cbmc-args"] + registry.CBMC_ARGS
     try:
         p = subprocess.run(cmd, cwd=work, env=base_env(), stdout=subprocess.PIPE, stderr=subprocess.STDOUT,
                            text=True, preexec_fn=limit_mem(registry.MEM_GB),
@@ -268,8 +302,9 @@ def main():
     os.makedirs(SCRATCH, exist_ok=True)
     lock = open(os.path.join(SCRATCH, "lock-" + prop), "w")
     fcntl.flock(lock, fcntl.LOCK_EX)
-    runlock = open(os.path.join(SCRATCH, "lock-global"), "w")
-    fcntl.flock(runlock, fcntl.LOCK_EX)  # CBMC is memory bound: one check at a time on this box
+    if not os.environ.get("VERIF_NOLOCK"):
+        runlock = open(os.path.join(os.environ.get("VERIF_LOCKDIR", SCRATCH), "lock-global"), "w")
+        fcntl.flock(runlock, fcntl.LOCK_EX)  # CBMC is memory bound: one check at a time on this box
 
     if args.replay:
         h = os.path.basename(args.replay)[:-3]
